@@ -13,6 +13,9 @@ import (
 // Decoded is what a term token denotes according to the documented syntax (M1).
 type Decoded struct {
 	Known bool // false: the documentation is silent; only the position is checked
+	// KindOnly: the token is a wildcard pattern (an unescaped * or ? occurs) but,
+	// because it also contains escapes, its exact text is undocumented.
+	KindOnly bool
 	// AltString: the token may also legitimately denote the plain string S
 	// (non-finite "numbers" such as NaN / Inf).
 	AltString bool
@@ -67,7 +70,7 @@ func Decode(text string) Decoded {
 	}
 	if wild {
 		if escaped {
-			return Decoded{} // escapes inside patterns: undocumented
+			return Decoded{KindOnly: true, Val: gen.Val{K: gen.VWild, Src: text}} // escapes inside patterns: only the kind is documented
 		}
 		return Decoded{Known: true, Val: gen.Val{K: gen.VWild, Src: text, S: text}}
 	}
